@@ -27,42 +27,45 @@ def guard_mentions(guard, test) -> bool:
     return False
 
 
-def dispatch_fallthrough(ctx, qualname: str, param: str, what: str, min_cases: int):
-    """literal dispatch over `param`: every case returns, the no-match path raises ValueError"""
+def dispatch_fallthrough(ctx, qualname: str, param: str, what: str, known):
+    """dispatch over a name parameter, decided by specialisation (any dispatch idiom: if-chain, early returns, table):
+    every documented literal reaches a normal return; an unknown literal reaches only `raise ValueError`"""
     fi = ctx.prog.func(qualname)
     if param not in fi.params():
         raise AnalysisError(f"C20.2: {qualname} has no parameter {param}")
-    p = Term('param', (Const(param),), kind='str')
     L = sym.sym('L')
-    args = {}
-    for q in fi.params():
-        if q == param:
-            args[q] = p
-        elif q in ('x', 'y', 'new_x', 'lookup', 'a'):
-            args[q] = arr_param('in:' + q, length=L)
-        else:
-            args[q] = Num(sym.sym('in:' + q))
-    ev = Evaluator(ctx.prog, inline=lambda f: False, opaque_kind=REPO_RESULT_KIND)
-    a = fi.node.args
-    star = Term('param', (Const('**kw'),), kind='dict') if a.kwarg else None
-    res, st = ev.run_function(fi, args=args, star_kwargs=star)
-    lits = []
-    for e in ev.events:
-        for g in e.guard:
-            q = g.args[0] if isinstance(g, P) and g.op == 'not' else g
-            if isinstance(q, P) and q.op == 'eq' and veq(q.args[0], p) and isinstance(q.args[1], Const) and q.args[1].v not in lits:
-                lits.append(q.args[1].v)
-    ctx.floor('C20.2', len(lits), min_cases, f"literal cases of {fi.name}({param})")
-    # the path on which every equality test failed
-    falls = [e for e in ev.events if e.kind in ('raise', 'return', 'fallthrough') and
-             all(any(isinstance(g, P) and g.op == 'not' and isinstance(g.args[0], P) and g.args[0].op == 'eq' and veq(g.args[0].args[1], Const(l))
-                     for g in e.guard) for l in lits)]
-    ok = bool(falls) and all(e.kind == 'raise' and e.data.get('exc') == 'ValueError' for e in falls)
-    ctx.check(ok, 'C20.2', f"{fi.name}: an unknown {what} reaches `raise ValueError`",
-              f"cases {lits}; no-match path ends with: {[(e.kind, e.data.get('exc')) for e in falls] or 'nothing (falls off the end / returns)'}",
-              (falls[0].loc() if falls else fi.loc()), fi.qualname, f"fallthrough:{fi.name}")
-    ctx.sample({'rule': 'C20.2', 'function': fi.name, 'cases': lits})
-    return lits
+
+    def evaluate(lit):
+        args = {}
+        for q in fi.params():
+            if q == param:
+                args[q] = Const(lit)
+            elif q in ('x', 'y', 'new_x', 'lookup', 'a'):
+                args[q] = arr_param('in:' + q, length=L)
+            else:
+                args[q] = Num(sym.sym('in:' + q))
+        ev = Evaluator(ctx.prog, inline=lambda f: False, opaque_kind=REPO_RESULT_KIND)
+        a_ = fi.node.args
+        star = Term('param', (Const('**kw'),), kind='dict') if a_.kwarg else None
+        res, st = ev.run_function(fi, args=args, star_kwargs=star)
+        if ev.issues:
+            raise AnalysisError(f"C20.2: {fi.name} not canonicalisable for {param}={lit!r}: {ev.issues[:2]}")
+        rets = [e for e in ev.events if e.kind in ('return', 'fallthrough') and (e.func is fi or e.data.get('func') is fi)]
+        raises = [e for e in ev.events if e.kind == 'raise']
+        return rets, raises
+    for lit in known:
+        rets, raises = evaluate(lit)
+        uncond = [e for e in raises if not e.guard]
+        ctx.check(bool(rets) and not uncond and all(e.kind == 'return' for e in rets), 'C20.2', f"{fi.name}: the documented {what} '{lit}' is accepted",
+                  f"returns {len(rets)}, unconditional raises {[e.data.get('exc') for e in uncond]}", fi.loc(), fi.qualname, f"known:{fi.name}:{lit}")
+    for lit in ('__no_such_' + param + '__', ''):
+        rets, raises = evaluate(lit)
+        ok = not rets and any(e.data.get('exc') == 'ValueError' and not e.guard for e in raises) and all(e.data.get('exc') == 'ValueError' for e in raises)
+        ctx.check(ok, 'C20.2', f"{fi.name}: an unknown {what} reaches only `raise ValueError`",
+                  f"{param}={lit!r}: normal exits {[(e.kind, e.loc()) for e in rets]}; raises {[(e.data.get('exc'), len(e.guard)) for e in raises]}",
+                  (rets[0].loc() if rets else fi.loc()), fi.qualname, f"fallthrough:{fi.name}:{lit}")
+    ctx.sample({'rule': 'C20.2', 'function': fi.name, 'documented': list(known)})
+    return list(known)
 
 
 def check_guards(ctx, wm: WeaverModel):
@@ -97,9 +100,9 @@ def check_guards(ctx, wm: WeaverModel):
               f"{[(e.data.get('exc'), [str(g) for g in e.guard]) for e in st.init_raises]}", st.init.loc(), st.init.qualname, 'n<2')
     # 4-6 dispatchers
     ctx.rule('C20.2', 'every literal dispatch over a method-name parameter ends in `raise ValueError` on the no-match path')
-    dispatch_fallthrough(ctx, SAU + 'integral', 'method', 'integration rule', 2)
-    dispatch_fallthrough(ctx, SAU + 'find_closest_element_indices_to_values', 'strategy', 'search strategy', 3)
-    dispatch_fallthrough(ctx, PROC + 'interpolate', 'method', 'interpolation method', 4)
+    dispatch_fallthrough(ctx, SAU + 'integral', 'method', 'integration rule', ['trapezoid', 'rectangle'])
+    dispatch_fallthrough(ctx, SAU + 'find_closest_element_indices_to_values', 'strategy', 'search strategy', ['closest', 'lower', 'higher'])
+    dispatch_fallthrough(ctx, PROC + 'interpolate', 'method', 'interpolation method', ['linear', 'constant', 'cubic', 'spline'])
     # kernel's own validation
     kfi = ctx.prog.func(MATCH + '_integral_matching_stretch')
     rs = callee_raises(ctx.prog, kfi)
